@@ -61,6 +61,16 @@ def cases(seed, tier):
                 # one very long list (about 60 KiB of names): the KEXINIT spans dozens of segments and recv() calls
                 cat = rng.choice(CATS)
                 p[cat] = p[cat] + ['n%04d-' % j + 'x' * rng.choice([40, 180]) + '@example.com' for j in range(rng.choice([60, 300]))]
+            rs = gen.case_rng(seed, ID, i, 'punct')
+            if rs.random() < 0.1:
+                # RFC 4251 allows every printable US-ASCII character except the comma in a name: characters that mean something to
+                # format strings, shells, JSON or terminals must come out as they went in
+                special = ['kex-100%%-safe@example.com', 'aes%s-ctr', '100%', '%(name)s-mac', '{0}-cipher', '{name}', 'back\\slash', "quo'te", 'dou"ble', 'semi;colon',
+                           '$HOME', '`id`', '<b>', 'a&b', 'per%cent%', '%%', '%d%d', 'tilde~', 'hash#tag', 'bang!', 'star*', '[bracket]', 'pipe|', 'caret^']
+                for _ in range(rs.randrange(1, 4)):
+                    cat = rs.choice(CATS)
+                    p[cat] = list(p[cat])
+                    p[cat].insert(rs.randrange(len(p[cat]) + 1), rs.choice(special))
             if role == 'server' and i % 10 == 7:
                 # every advertised host-key type is really presented during the probes (measured sizes, notes or no notes at all,
                 # are written back into the rating tables before the report is rendered): the lists shown must not depend on it
